@@ -14,7 +14,7 @@ import input_cycles as IC
 FR = "crates/apollo-compiler/src/validation/fragment.rs"
 
 _a = IC.PRELUDE.index("pub struct RecursionLimitError {}")
-_b = IC.PRELUDE.index("pub struct FindRecursiveInputValue")
+_b = IC.PRELUDE.index("// ---------------- specification: Circular References")
 GUARD_MODEL = IC.PRELUDE[_a:_b]      # CycleError, RecursionStack / RecursionGuard model, first_is: the text of unit input_cycles
 
 PRELUDE = r'''
